@@ -24,6 +24,8 @@ pub struct Analysis {
     /// max number of consecutive failed receive attempts between progress events
     pub max_consecutive_failures: u32,
     pub wraps: u64,
+    pub progress_in_last_half: bool,
+    pub capped_with_progress: bool,
 }
 
 impl Analysis {
@@ -60,7 +62,14 @@ pub fn analyze(spec: &CaseSpec, out: &Outcome) -> Analysis {
         a.fail("PANIC", out.log.len(), "worker thread panicked".into());
     }
     if out.end == EndHow::Capped {
-        a.fail("UNBOUNDED", out.log.len(), format!("event cap {} reached with the worker still running", spec.max_events));
+        // a cap hit is a non-termination witness only if the transfer had stopped making progress; a transfer that
+        // is still advancing when the harness budget runs out is a harness limit (inconclusive), not a violation
+        if a.progress_in_last_half {
+            a.class("cap-hit-while-progressing");
+            a.capped_with_progress = true;
+        } else {
+            a.fail("UNBOUNDED", out.log.len(), format!("event cap {} reached with the worker still running and no progress in the second half of the trace", spec.max_events));
+        }
     }
     a
 }
@@ -260,6 +269,7 @@ fn sender(spec: &CaseSpec, out: &Outcome, a: &mut Analysis) {
                         let outstanding = max_sent.saturating_sub(acked);
                         if d >= 1 && d <= outstanding {
                             acked += d;
+                            a.progress_in_last_half = i * 2 >= log.len();
                             consecutive_fail = 0;
                             consecutive_timeouts = 0;
                             bu.prev_recv_new_ack = Some(acked);
@@ -452,6 +462,7 @@ fn receiver(spec: &CaseSpec, out: &Outcome, a: &mut Analysis) {
                         let full = block_slice(spec, *abs).len();
                         if *abs == inseq + 1 && *len == full {
                             inseq += 1;
+                            a.progress_in_last_half = i * 2 >= log.len();
                             since_ack += 1;
                             consecutive_fail = 0;
                             consecutive_timeouts = 0;
